@@ -7,9 +7,14 @@ import (
 	"fmt"
 	"hash/fnv"
 	"io"
+	"net/http"
+	"net/http/httptest"
 	"os"
+	"os/exec"
+	"path/filepath"
 	"strconv"
 	"strings"
+	"sync/atomic"
 	"time"
 
 	vegeta "github.com/tsenart/vegeta/v12/lib"
@@ -135,7 +140,7 @@ func checkCut(s *kit.Summary, cd codec, st *stream, k int) {
 		return
 	}
 	for i := range got {
-		if !got[i].Equal(st.rs[i]) {
+		if !got[i].Equal(st.rs[i]) || !gen.SameResult(&got[i], &st.rs[i]) {
 			s.Violate(kit.Violation{Kind: "prefix_wrong_record", What: "a record decoded from the truncated stream differs from the one written", Input: in,
 				Expected: st.Results[i], Observed: gen.ResultLine(&got[i]), Key: key})
 			return
@@ -149,6 +154,10 @@ func checkCut(s *kit.Summary, cd codec, st *stream, k int) {
 
 func genStream(r *kit.Rng, cd codec, large int) []vegeta.Result {
 	n := 1 + r.Pick(5)
+	if large < 0 { // many small records: the stream crosses the 4096-byte buffers of the readers several times
+		n = 40 + r.Pick(50)
+		large = 0
+	}
 	rs := make([]vegeta.Result, n)
 	for i := range rs {
 		o := gen.ResultOpts{MaxBody: 40, NoZoneMinus1: true, Zone: cd.name == "gob", ZoneOddSeconds: cd.name == "gob"}
@@ -179,14 +188,21 @@ func runBoundaryStreams(r *kit.Rng, s *kit.Summary, cd codec, n int) {
 	for i := 0; i < n; i++ {
 		rs := genStream(r, cd, 0)
 		k := r.Pick(len(rs))
-		band := bands[(i+r.Pick(2))%len(bands)]
+		band := bands[(i/len(gen.BigFieldKinds))%len(bands)] // every (band, field) combination in turn
 		enc := band[0] + r.Pick(band[1]-band[0])
-		b := make([]byte, enc*3/4) // base64 expands by 4/3 in json and csv
-		if cd.name == "gob" {
-			b = make([]byte, enc)
+		// the record is made large through its body or through a text / the headers (fields that the
+		// encoders write before and after the body)
+		kind := gen.BigFieldKinds[i%len(gen.BigFieldKinds)]
+		to := gen.TextOpts{CR: cd.name != "csv", CRLF: cd.name != "csv"}
+		switch {
+		case kind == "body" && cd.name != "gob":
+			gen.Inflate(r, &rs[k], kind, enc*3/4, to) // base64 expands by 4/3 in json and csv
+		case strings.HasPrefix(kind, "header") && cd.name == "csv":
+			gen.Inflate(r, &rs[k], kind, enc*3/4, to)
+		default:
+			gen.Inflate(r, &rs[k], kind, enc, to)
 		}
-		r.Read(b)
-		rs[k].Body = b
+		s.Count(cd.name + ":boundary-stream-big-field=" + kind)
 		st, status := encodeStream(cd, rs)
 		if status != "ok" {
 			s.Violate(kit.Violation{Kind: "encode_failed", What: "encoder failed on a result of the representable domain", Input: st.Results, Observed: status})
@@ -213,8 +229,12 @@ func runBoundaryStreams(r *kit.Rng, s *kit.Summary, cd codec, n int) {
 func runFailingEncode(r *kit.Rng, s *kit.Summary, n int) {
 	for i := 0; i < n; i++ {
 		var cd codec
+		want := "json"
+		if i%3 == 2 {
+			want = "gob" // Time.MarshalBinary fails on a zone of -00:01 (and beyond ±32767 minutes)
+		}
 		for _, c := range codecs {
-			if c.name == "json" {
+			if c.name == want {
 				cd = c
 			}
 		}
@@ -223,33 +243,149 @@ func runFailingEncode(r *kit.Rng, s *kit.Summary, n int) {
 			rs = append(rs, genStream(r, cd, 0)...)
 		}
 		bad := 1 + r.Pick(len(rs)-2)
-		rs[bad].Timestamp = time.Date(10000+r.Pick(5), 1, 1, 0, 0, 0, 0, time.UTC)
+		if r.Chance(0.25) {
+			bad = 0 // the very first call fails (gob: the type definitions are already out)
+		}
+		switch {
+		case cd.name == "gob":
+			rs[bad].Timestamp = rs[bad].Timestamp.In(time.FixedZone("", -60-r.Pick(60)))
+		case r.Chance(0.3):
+			rs[bad].Timestamp = time.Date(-1-r.Pick(5), 1, 1, 0, 0, 0, 0, time.UTC)
+		default:
+			rs[bad].Timestamp = time.Date(10000+r.Pick(5), 1, 1, 0, 0, 0, 0, time.UTC)
+		}
+		if r.Chance(0.3) && bad+1 < len(rs) {
+			// two failing calls in a row
+			rs[bad+1].Timestamp = rs[bad].Timestamp
+		}
 		if r.Chance(0.5) {
 			rs[bad].Body = make([]byte, 100+r.Pick(400)) // a longer half-written object
 		}
-		w := &recWriter{}
-		enc := cd.enc(w)
-		okCalls := 0
-		sawError := false
-		for j := range rs {
-			x := rs[j]
-			err := enc.Encode(&x)
-			if err == nil {
-				okCalls++
-			} else {
-				sawError = true
-			}
-			got, term := decodePrefix(cd, w.buf.Bytes())
-			if len(got) != okCalls || term != "eof" {
-				s.Violate(kit.Violation{Kind: "encode_not_whole_record", What: "after an Encode call that failed on an unmarshalable result, a later successful call did not emit exactly one whole record (what reached the writer does not decode to the records of the successful calls)",
-					Input:    map[string]interface{}{"codec": cd.name, "unmarshalable_at_call": bad + 1, "call": j + 1, "records": len(rs)},
-					Expected: fmt.Sprintf("%d records then eof", okCalls), Observed: fmt.Sprintf("%d records then %s", len(got), term),
-					Key: map[string]interface{}{"codec": cd.name, "after_failed_encode": true}})
-				break
-			}
-		}
+		sawError := checkFailingEncode(s, cd, rs)
 		s.Case(fmt.Sprint("failing-encode:", i), true)
-		s.Count(fmt.Sprintf("json:failing-encode saw_error=%v", sawError))
+		s.Count(fmt.Sprintf("%s:failing-encode saw_error=%v first_call=%v", cd.name, sawError, bad == 0))
+	}
+}
+
+func zoneSecs(rs []vegeta.Result) []int {
+	out := make([]int, len(rs))
+	for i := range rs {
+		_, out[i] = rs[i].Timestamp.Zone()
+	}
+	return out
+}
+
+// checkFailingEncode drives one encoder over rs (some of which cannot be encoded) and checks after every
+// call that what reached the writer decodes to exactly the results of the calls that returned nil.
+func checkFailingEncode(s *kit.Summary, cd codec, rs []vegeta.Result) (sawError bool) {
+	w := &recWriter{}
+	enc := cd.enc(w)
+	var okRs []vegeta.Result
+	lines := make([]string, len(rs))
+	for j := range rs {
+		lines[j] = gen.ResultLine(&rs[j])
+	}
+	for j := range rs {
+		x := rs[j]
+		var err error
+		p, _ := kit.Recover(func() { err = enc.Encode(&x) })
+		if err == nil && !p {
+			okRs = append(okRs, rs[j])
+		} else {
+			sawError = true
+		}
+		got, term := decodePrefix(cd, w.buf.Bytes())
+		// (gob: after a failed call the stream may end with type definitions only, which reads as an unexpected EOF)
+		bad := p || len(got) != len(okRs) || (term != "eof" && err == nil) || term == "panic"
+		for i := 0; !bad && i < len(got); i++ {
+			bad = !gen.SameResult(&got[i], &okRs[i])
+		}
+		if bad {
+			s.Violate(kit.Violation{Kind: "encode_not_whole_record", What: "after an Encode call that failed on an unmarshalable result, a later successful call did not emit exactly one whole record (what reached the writer does not decode to the records of the successful calls)",
+				Input:    map[string]interface{}{"codec": cd.name, "failing_encode": true, "results": lines, "zone_sec": zoneSecs(rs), "call": j + 1},
+				Expected: fmt.Sprintf("%d records then eof", len(okRs)), Observed: gen.ResultsLine(got, term, false),
+				Key: map[string]interface{}{"codec": cd.name, "after_failed_encode": true}})
+			return
+		}
+	}
+	return
+}
+
+// runAttackCommand: the attack command itself, end to end. `vegeta attack -output file` runs against a local
+// server; while it is still running the file must already hold the results of exchanges that finished long
+// ago (every result is encoded as it arrives, straight to the file), and after the process was killed the
+// file must decode to a clean prefix. Only lower bounds are asserted: at least one complete record in the
+// file one second after the 10th response went out.
+func runAttackCommand(c *run.Ctx, s *kit.Summary) {
+	if _, err := os.Stat(c.Vegeta); err != nil {
+		s.Skipped["attack-command: no vegeta binary"]++
+		return
+	}
+	var served int64
+	srv := httptest.NewServer(http.HandlerFunc(func(w http.ResponseWriter, _ *http.Request) {
+		w.Header().Set("X-Served", "1")
+		fmt.Fprint(w, "ok")
+		atomic.AddInt64(&served, 1)
+	}))
+	defer srv.Close()
+	out := filepath.Join(c.Work, "attack-e2e.bin")
+	os.Remove(out)
+	cmd := exec.Command(c.Vegeta, "attack", "-rate=25/s", "-duration=20s", "-output", out)
+	cmd.Env = append(os.Environ(), "VEGETA_VERIF_DRIVER=")
+	cmd.Stdin = strings.NewReader("GET " + srv.URL + "/\n")
+	if err := cmd.Start(); err != nil {
+		s.Skipped["attack-command: cannot start"]++
+		return
+	}
+	killed := false
+	defer func() {
+		if !killed {
+			cmd.Process.Kill()
+			cmd.Wait()
+		}
+	}()
+	deadline := time.Now().Add(8 * time.Second)
+	for atomic.LoadInt64(&served) < 10 && time.Now().Before(deadline) {
+		time.Sleep(20 * time.Millisecond)
+	}
+	n0 := atomic.LoadInt64(&served)
+	if n0 < 10 {
+		s.Skipped["attack-command: local server not reached"]++
+		return
+	}
+	time.Sleep(time.Second)
+	while, _ := os.ReadFile(out)
+	cmd.Process.Kill() // the writer is killed
+	cmd.Wait()
+	killed = true
+	after, _ := os.ReadFile(out)
+	var gobc codec
+	for _, cd := range codecs {
+		if cd.name == "gob" {
+			gobc = cd
+		}
+	}
+	got, term := decodePrefix(gobc, while)
+	s.Case("attack-command", true)
+	s.Count("attack-command:runs")
+	in := map[string]interface{}{"command": "vegeta attack -rate=25/s -duration=20s -output FILE (killed after ≥10 responses + 1 s)",
+		"responses_served_one_second_before_reading": n0, "file_bytes_while_running": len(while), "file_bytes_after_kill": len(after)}
+	if len(got) < 1 || term == "panic" {
+		s.Violate(kit.Violation{Kind: "attack_output_held_back", What: "the attack command does not write each result as it arrives: one second after the 10th response the output file holds no complete record",
+			Input: in, Expected: "≥ 1 complete record in the file while the attack is running", Observed: fmt.Sprintf("%d records then %s", len(got), term),
+			Key: map[string]interface{}{"codec": "gob"}})
+		return
+	}
+	got2, term2 := decodePrefix(gobc, after)
+	if len(got2) < len(got) || term2 == "panic" || term2 == "runaway" {
+		s.Violate(kit.Violation{Kind: "attack_output_not_clean_prefix", What: "the output file of a killed attack does not decode to a clean prefix", Input: in,
+			Observed: fmt.Sprintf("%d records then %s (while running: %d)", len(got2), term2, len(got))})
+	}
+	for i := range got2 {
+		if got2[i].Seq != uint64(i) || got2[i].Code != 200 {
+			s.Violate(kit.Violation{Kind: "attack_output_not_clean_prefix", What: "a record of the killed attack's output is not the i-th result", Input: in, Observed: gen.ResultLine(&got2[i])})
+			break
+		}
 	}
 }
 
@@ -288,7 +424,14 @@ func runStreams(c *run.Ctx, r *kit.Rng, s *kit.Summary, cd codec, nStreams int, 
 		if i >= nStreams {
 			lg = large
 		}
+		if i%50 == 25 {
+			lg = -1
+		}
 		rs := genStream(r, cd, lg)
+		if lg < 0 {
+			lg = 0
+			s.Count(cd.name + ":stream-with-many-records")
+		}
 		st, status := encodeStream(cd, rs)
 		if status != "ok" {
 			s.Violate(kit.Violation{Kind: "encode_failed", What: "encoder failed on a result of the representable domain", Input: st, Observed: status})
@@ -393,9 +536,11 @@ func replay(c *run.Ctx, s *kit.Summary) {
 	}
 	var rec struct {
 		Input struct {
-			Codec   string   `json:"codec"`
-			Results []string `json:"results"`
-			Cut     *int     `json:"cut"`
+			Codec         string   `json:"codec"`
+			Results       []string `json:"results"`
+			Cut           *int     `json:"cut"`
+			ZoneSec       []int    `json:"zone_sec"`
+			FailingEncode bool     `json:"failing_encode"`
 		} `json:"input"`
 	}
 	if err := json.Unmarshal(raw, &rec); err != nil {
@@ -406,12 +551,20 @@ func replay(c *run.Ctx, s *kit.Summary) {
 			continue
 		}
 		var rs []vegeta.Result
-		for _, ln := range rec.Input.Results {
+		for i, ln := range rec.Input.Results {
 			x, err := gen.ParseResultLine(ln)
 			if err != nil {
 				panic(err)
 			}
+			if i < len(rec.Input.ZoneSec) && (rec.Input.ZoneSec[i] != 0 || rec.Input.FailingEncode && cd.name == "gob") {
+				x.Timestamp = x.Timestamp.In(time.FixedZone("", rec.Input.ZoneSec[i]))
+			}
 			rs = append(rs, x)
+		}
+		if rec.Input.FailingEncode {
+			s.Case("replay", true)
+			checkFailingEncode(s, cd, rs)
+			return
 		}
 		st, status := encodeStream(cd, rs)
 		if status != "ok" {
@@ -439,12 +592,15 @@ func runC09(c *run.Ctx, s *kit.Summary) {
 		switch cd.name {
 		case "csv":
 			runStreams(c, r, s, cd, c.N(1500, 60000), 20000, c.N(20, 300))
-			runBoundaryStreams(r, s, cd, c.N(48, 800))
+			runBoundaryStreams(r, s, cd, c.N(56, 840))
 		default:
 			// ~600 bytes per stream on average
 			runStreams(c, r, s, cd, c.N(50, 3500), c.N(6000, 30000), c.N(2, 12))
-			runBoundaryStreams(r, s, cd, c.N(48, 800))
+			runBoundaryStreams(r, s, cd, c.N(56, 840))
 		}
 	}
 	runFailingEncode(r, s, c.N(40, 600))
+	for i := 0; i < c.N(1, 3); i++ {
+		runAttackCommand(c, s)
+	}
 }
